@@ -87,8 +87,10 @@ def main():
         dst = os.path.join(VERIF, 'seeded', f'{prop}_{x}')
         if res['confirmed']:
             os.makedirs(dst, exist_ok=True)
-            shutil.copy(patch, os.path.join(dst, 'patch.diff'))
-            shutil.copy(demo, os.path.join(dst, 'demo.py'))
+            if os.path.realpath(patch) != os.path.realpath(os.path.join(dst, 'patch.diff')):
+                shutil.copy(patch, os.path.join(dst, 'patch.diff'))
+            if os.path.realpath(demo) != os.path.realpath(os.path.join(dst, 'demo.py')):
+                shutil.copy(demo, os.path.join(dst, 'demo.py'))
             meta = {}
             if os.path.exists(metasrc):
                 try:
@@ -98,6 +100,9 @@ def main():
             old = {}
             if os.path.exists(os.path.join(dst, 'meta.json')):
                 old = json.load(open(os.path.join(dst, 'meta.json')))
+            for k in ('summary', 'needs', 'files', 'note'):
+                if not meta.get(k) and old.get(k):
+                    meta[k] = old[k]
             hist = old.get('runs', [])
             hist.append(dict(ran_at=res['ran_at'], repo_head=res['repo_head'], checks=res['checks'], caught_by=res['caught_by']))
             json.dump(dict(property=prop, variant=x, summary=meta.get('summary'), needs=meta.get('needs'),
@@ -106,7 +111,7 @@ def main():
                                           applied_with=res['applied_with']),
                            what_i_ran=f'tools_seedtest.py (scratch copy of /repo HEAD, patch applied, pinned pytest suite, demo on '
                                       f'pristine and patched copy, ./check <id> --repo <scratch>)',
-                           caught_by=res['caught_by'], runs=hist[-6:]),
+                           caught_by=res['caught_by'], runs=hist[-6:], **({'note': meta['note']} if meta.get('note') else {})),
                       open(os.path.join(dst, 'meta.json'), 'w'), indent=1)
         print(json.dumps(dict(prop=prop, x=x, confirmed=res['confirmed'], tests=res['tests']['passed'],
                               demo=(res['demo_pristine']['rc'], res['demo_patched']['rc']),
